@@ -201,6 +201,7 @@ fn plans(prop: &str, tier: &str) -> Vec<Plan> {
             // vectors beyond one imbl chunk (64 items), also with a first chunk that
             // does not start at slot 0
             out.push(Plan { name: "c10-tree", cfgs: tree_cfgs("C10", &[StageKind::Filter, StageKind::FilterMap], 2), depth: if q { 2 } else { 3 } });
+            out.push(Plan { name: "c10-tree-every-index", cfgs: every_index(tree_cfgs("C10", &[StageKind::Filter, StageKind::FilterMap], 2)), depth: if q { 1 } else { 2 } });
             // long runs of updates between two polls (capacity above the run length)
             let mut cfgs = Vec::new();
             for kind in [StageKind::Filter, StageKind::FilterMap] {
@@ -253,6 +254,7 @@ fn plans(prop: &str, tier: &str) -> Vec<Plan> {
             }
             out.push(Plan { name: "c11-bursts", cfgs, depth: if q { 3 } else { 4 } });
             out.push(Plan { name: "c11-tree", cfgs: tree_cfgs("C11", &[StageKind::Sort, StageKind::SortBy, StageKind::SortByKey], 3), depth: if q { 2 } else { 3 } });
+            out.push(Plan { name: "c11-tree-every-index", cfgs: every_index(tree_cfgs("C11", &[StageKind::Sort, StageKind::SortBy, StageKind::SortByKey], 3)), depth: if q { 1 } else { 2 } });
         }
         "C12" => {
             let menu = chain_menu();
@@ -629,6 +631,16 @@ fn plans(prop: &str, tier: &str) -> Vec<Plan> {
 /// Single stages over vectors of 66 and 131 items (imbl switches to a tree
 /// of 64-item chunks there), built up so that the first chunk starts at slot 0
 /// or - after `pop_front` calls before anybody subscribes - does not.
+/// The same configurations with the alphabet "Insert / Set / Remove / Truncate at every index".
+fn every_index(mut cfgs: Vec<Cfg>) -> Vec<Cfg> {
+    for c in &mut cfgs {
+        c.alphabet = Alphabet::LargeEveryIndex;
+    }
+    // one capacity is enough here (no lag within one or two operations at capacity 16)
+    cfgs.retain(|c| c.capacity == 16);
+    cfgs
+}
+
 fn tree_cfgs(prop: &'static str, kinds: &[StageKind], nkeys: u8) -> Vec<Cfg> {
     let chains: Vec<Vec<StageKind>> = kinds.iter().map(|k| vec![*k]).collect();
     tree_chain_cfgs(prop, &chains, nkeys)
